@@ -246,6 +246,11 @@ def fn_sigkey(fr):
     return [tys[0]] + sorted(tys[1:])
 
 
+def const_digest(v):
+    import hashlib
+    return hashlib.sha1(json.dumps(v, sort_keys=True).encode()).hexdigest()[:16]
+
+
 def fn_callees(fr):
     out = []
     for b in fr['blocks']:
@@ -306,6 +311,19 @@ def compute_aliases(raws):
                     if scored[0][0] >= 0.5 or len(cands) == 1 and len(missing) == 1:
                         fn_alias[scored[0][1]] = m
                         changed = True
+    # constants: same type and same value under a new name (or path)
+    cur_consts = {}
+    for raw in raws:
+        if raw['kind'] in ('bin', 'build'):
+            continue
+        for c in raw['consts']:
+            cur_consts[c['path']] = (c['ty'], const_digest(c['value']))
+    for m, (ty, dg) in base.get('consts', {}).items():
+        if m in cur_consts:
+            continue
+        cands = [n for n, (t2, d2) in cur_consts.items() if n not in base.get('consts', {}) and t2 == ty and d2 == dg and n not in fn_alias]
+        if len(cands) == 1:
+            fn_alias[cands[0]] = m
     field_alias = {}
     for path, variants in base['adts'].items():
         cv = cur_adts.get(path)
